@@ -11,7 +11,9 @@ CONSTANTS
   KeepFoundBlock = FALSE
   SilentSeekHit = FALSE
   EarlyReturnOnForeign = FALSE
+  KeepCurAfterKeep = FALSE
   KeepOnGet = FALSE
   Foreign = {}
+  RealCache = FALSE
 INVARIANTS NoPanic DataIdentity ErrorsTrue NoStaleMapping CacheBounded Capacities NoLeak
 CHECK_DEADLOCK TRUE
